@@ -3331,6 +3331,15 @@ impl SctpInner {
         let cwnd_val = self.cwnd_tx.load(Ordering::Relaxed);
         let flight_val = self.flight_size.load(Ordering::Relaxed);
         let rwnd_val = self.peer_rwnd.load(Ordering::Relaxed) as usize;
+        // RFC 4960 §6.1 rule A: with a zero peer window and nothing in flight,
+        // one packet may still be sent as a window probe. Without it a zero
+        // (or stale, reordered) window advertisement stalls the sender forever,
+        // because no further SACK will ever arrive to reopen the window.
+        let rwnd_val = if rwnd_val == 0 && flight_val == 0 {
+            MAX_SCTP_PACKET_SIZE
+        } else {
+            rwnd_val
+        };
 
         // (fast_recovery state still influences CC growth in handle_sack; the
         // burst limit itself is now uniformly 4 per RFC 8261.)
